@@ -141,7 +141,7 @@ func (w *World) converged() (bool, string) {
 			leaders++
 		}
 		if !mem[id] {
-			continue
+			return false, fmt.Sprintf("removed node %d is still running", id)
 		}
 		st := n.st
 		if st.Term != ls.Term {
@@ -299,12 +299,12 @@ func (w *World) healSuffix() {
 	why := ""
 	probeRR := 0
 	for ; ticks < bound && !w.failed(); ticks++ {
+		w.retireAll()
 		ok, reason := w.converged()
 		why = reason
 		if ok {
 			break
 		}
-		w.retireAll()
 		for _, id := range w.ids {
 			n := w.nodes[id]
 			if n.up() {
